@@ -54,6 +54,16 @@ def main():
     add('Deref_arr', [('p', '*[4]int32'), ('i', 'int')], 'int32', 'v := p[i&3]', 'nilptr')
     # twice in one function: the second fault behaves like the first
     add('Twice', [('s', '[]int32'), ('i', 'int'), ('j', 'int')], 'int32', 'v := s[i] + s[j]', 'index')
+    # channel operations that must panic (and their neighbours that must not)
+    add('ChanSendClosed', [('k', 'int')], 'int', 'ch := make(chan int, 2); ch <- k; close(ch); trace(3); ch <- k + 1; v := len(ch)', 'chan')
+    add('ChanSendClosedUnbuf', [('k', 'int')], 'int', 'ch := make(chan int); close(ch); trace(3); ch <- k; v := k', 'chan')
+    add('ChanCloseClosed', [('k', 'int')], 'int', 'ch := make(chan int, 1); close(ch); trace(3); close(ch); v := k', 'chan')
+    add('ChanCloseNil', [('k', 'int')], 'int', 'var ch chan int; trace(3); close(ch); v := k', 'chan')
+    add('ChanRecvClosed', [('k', 'int')], 'int', 'ch := make(chan int, 2); ch <- k; close(ch); a, ok1 := <-ch; b, ok2 := <-ch; v := a*4 + b*2; if ok1 { v += 100 }; if ok2 { v += 1000 }', 'chan')
+    add('ChanBuffered', [('k', 'int')], 'int', 'ch := make(chan int, 3); ch <- k; ch <- k + 1; a := <-ch; ch <- k + 2; v := a + len(ch)*10 + cap(ch)*100 + <-ch + <-ch', 'chan')
+    add('ChanSelectSendClosed', [('k', 'int')], 'int', 'ch := make(chan int, 1); close(ch); trace(3); v := 0; select { case ch <- k: v = 1; default: v = 2 }', 'chan')
+    add('ChanSelectDefault', [('k', 'int')], 'int', 'ch := make(chan int, 1); ch <- k; v := 0; select { case ch <- k: v = 1; default: v = 2 }; select { case x := <-ch: v += x; default: v += 1000 }', 'chan')
+    add('ChanTwice', [('k', 'int')], 'int', 'ch := make(chan int, 1); close(ch); v := 0; for i := 0; i < 2; i++ { func() { defer func() { if recover() != nil { v += 10 } }(); trace(4); ch <- k; trace(5) }() }', 'chan')
     os.makedirs(out, exist_ok=True)
     open(os.path.join(out, 'go.mod'), 'w').write('module tvc03\n\ngo 1.24\n')
     src = ['package tvc03', '', 'import _ "unsafe"', '', '//go:linkname trace C.trace', 'func trace(x int)', '']
